@@ -256,6 +256,37 @@ pub fn run(tier: Tier) -> ! {
             }
         });
     }
+    // gap family: two pairs of a target character separated by 0..=70 filler characters, at offsets 0..=3
+    // (any block-wise or strided scan has to treat every distance alike), all-W and all-U boundaries
+    {
+        let mut gap_cases = vec![];
+        for &t in &['1', 'a', 'あ', 'ア', '亜', '.', '\n', '\u{301}'] {
+            let f = if t == 'a' { '1' } else { 'a' };
+            for o in 0..=3usize {
+                for g in 0..=tier.pick(70usize, 140) {
+                    let mut text: Vec<char> = vec![f; o];
+                    text.extend([t, t]);
+                    text.extend(std::iter::repeat(f).take(g));
+                    text.extend([t, t, f, f]);
+                    for base in [1u8, 2] {
+                        gap_cases.push((text.clone(), vec![base; text.len() - 1]));
+                    }
+                }
+            }
+        }
+        chk.set("gap_family_cases", json!(gap_cases.len()));
+        gap_cases.par_iter().for_each(|(text, labels)| {
+            for id in 0..8 {
+                chk.eval(1);
+                if expected_boundaries(id, text, labels) != *labels {
+                    chk.nontrivial(1);
+                }
+                if let Some((k, what)) = check_boundary_filter(id, text, labels, 0, &[]) {
+                    chk.violation(format!("{k} filter={id} text={:?} labels={} n_tags=0", gen::s(text), lab(labels)), what, json!({"kind": "boundary", "filter": id, "text": gen::s(text), "labels": labels, "n_tags": 0, "pattern": 0}));
+                }
+            }
+        });
+    }
     // pattern tagger: every rule table over surfaces {a, ab} with tag vectors of length 0..3
     let mut vecs: Vec<Option<Vec<Option<String>>>> = vec![None];
     for len in 0..=3 {
@@ -308,7 +339,7 @@ pub fn run(tier: Tier) -> ! {
     chk.sample(json!({"filter": "pattern-tagger", "rules": {"a": ["R0", null, "R2"]}, "text": "ab", "labels": "W", "n_tags": 2}));
     chk.assume("grapheme cluster boundaries: unicode-segmentation run over the whole string is the trusted definition");
     chk.finish(
-        "six wsconst filters, the line-break filter and the grapheme filter x all texts up to the bound over a 13-letter alphabet (digits, letters, kana, kanji, CR, LF, ZWJ, pictograph, regional indicator, combining mark, skin-tone modifier) x every {N,W,U} vector (n<=4) or the constant vectors and all single deviations (n=5) x three tag fillings; the pattern tagger with all 256 rule tables x texts x label vectors x tag counts 0..3 x three tag fillings; non-trivial = the rule changes something; distinct by construction",
+        "six wsconst filters, the line-break filter and the grapheme filter x all texts up to the bound over a 13-letter alphabet (digits, letters, kana, kanji, CR, LF, ZWJ, pictograph, regional indicator, combining mark, skin-tone modifier) x every {N,W,U} vector (n<=4) or the constant vectors and all single deviations (n=5) x three tag fillings, plus long texts (30 / 64 characters, periodic labels) and the gap family (two target pairs 0..=70 fillers apart (140 in thorough) at offsets 0..=3, for each of 8 target characters); the pattern tagger with all 256 rule tables x texts x label vectors x tag counts 0..3 x three tag fillings; non-trivial = the rule changes something; distinct by construction",
         true,
         &replay,
     )
